@@ -415,6 +415,9 @@ func c02SessionWS(rc *RC, idx int, tag string, origin jid.JID, feats []xmpp.Stre
 
 func runC02(rc *RC) {
 	ch := rc.Ch
+	if d := rc.S.ConfigureDense(); d != "" {
+		rc.Describe("%s", d)
+	}
 	if ch.Chance("workload", 1, 2) {
 		rc.Net.Chunk = func() int { return 1 + ch.Int("net", 150) }
 	}
